@@ -175,4 +175,34 @@ theorem poll_sites_are_the_boundaries :
   | break_ d => simp only [Exec.runScript, h]
   | outOfFuel => simp only [Exec.runScript, h]
 
+/-! ## 5. The SIGINT shortcut of `wait` (coverage triage, session 4) -/
+
+/-- `wait` interrupted by SIGINT in an interactive shell (`wait/core.rs`: the check before the loop): the built-in
+    ends with `Interrupt(Some(384 + SIGINT))`, NO action runs inside `wait` and no pending flag is touched — so
+    every other signal caught in the same batch is still pending and (`runs_at_next_boundary`) runs at the hook
+    right after the `wait` command; when the shortcut does not apply the loop is `waitTrapLoop`. -/
+theorem wait_sigint_shortcut_loses_nothing (body : Body) (sigs : List Nat) (t : TrapMap) (exit : Int) :
+    (waitSigintShortcut sigs t = true →
+        (waitAfterSignals body sigs t exit).1 = t
+        ∧ (waitAfterSignals body sigs t exit).2 = some (SIGINT, none, exit, some (.interrupt (some (384 + SIGINT))))
+        ∧ pendingCommands (waitAfterSignals body sigs t exit).1 = pendingCommands t)
+    ∧ (waitSigintShortcut sigs t = false →
+        (waitAfterSignals body sigs t exit).1 = (waitTrapLoop body sigs t exit).1) := by
+  unfold waitAfterSignals
+  constructor
+  · intro h; simp [h]
+  · intro h
+    simp only [h, Bool.false_eq_true, if_false]
+    rcases hx : waitTrapLoop body sigs t exit with ⟨t', r⟩
+    cases r with
+    | none => rfl
+    | some p => obtain ⟨s, c, e, d⟩ := p; rfl
+
+/-- non-vacuity: interactive shell (`term+`), USR1 trapped; USR1 and INT arrive during `wait`: the shortcut
+    applies, USR1's action is still owed -/
+example :
+    let st := step (step (State.init fun _ => .default) .enableTerminators) (.setAction SIGUSR1 (.command 1) 0 false)
+    let t := [SIGUSR1, SIGINT].foldl catchSignal st.traps
+    waitSigintShortcut [SIGUSR1, SIGINT] t = true ∧ pendingCommands t = [(SIGUSR1, 1)] := by decide
+
 end YashModel.Trap
